@@ -132,6 +132,53 @@ def doc_valid(p, v) -> bool:
         return False
 
 
+def spec_valid(spec, v) -> bool:
+    """Validity of value v against what was DECLARED when the parameter was
+    constructed (the arguments of the constructor call the harness made), so a
+    parameter that forgets or alters its own bounds is still judged correctly."""
+    U = mods()["U"]
+    k = spec["kind"]
+    try:
+        if k == "map":
+            return isinstance(v, dict)
+        if k in ("int", "float"):
+            lo = -math.inf if spec.get("mn") is None else mk_value(spec["mn"])
+            hi = math.inf if spec.get("mx") is None else mk_value(spec["mx"])
+            if k == "int" and not isinstance(v, int):
+                return False
+            if k == "float" and (not isinstance(v, (int, float)) or isinstance(v, (U.Quantity, U.SI))):
+                return False
+            return bool(lo <= v <= hi)
+        if k == "str":
+            return isinstance(v, str)
+        if k == "bool":
+            return isinstance(v, bool)
+        if k == "qty":
+            lo = -math.inf if spec.get("mn") is None else mk_value(spec["mn"])
+            hi = math.inf if spec.get("mx") is None else mk_value(spec["mx"])
+            return type(v) is type(mk_value(spec["default"])) and bool(lo <= v.si <= hi)
+        if k == "sel":
+            return isinstance(v, str) and v in spec["opts"]
+        if k == "unit":
+            return isinstance(v, str) and v in mods()["qcls"][spec["qcls"]]._units
+    except Exception:
+        return False
+    return False
+
+
+def vtype(desc) -> str:
+    """coarse type tag of a value descriptor, for the measured input histogram"""
+    t = desc[0]
+    if t == "float":
+        x = mk_value(desc)
+        return "nan" if x != x else ("inf" if math.isinf(x) else "float")
+    if t == "int" and abs(desc[1]) > 2 ** 53:
+        return "bigint"
+    if t == "qtymk":
+        return "qty"
+    return t
+
+
 class Exec:
     """Runs operations on a fresh DSOLModel and checks the property's clauses
     on the live objects after every one of them."""
@@ -148,6 +195,11 @@ class Exec:
         self.bad = None                    # first violated clause (signature, what, op index)
         self.nops = 0
         self.prev = self.dump(None)
+        # reference tree, kept by the oracle from the implementation's own
+        # accept / reject answers: what the tree must look like
+        self.ref = {"key": self.root.key, "id": 0, "prio": 1.0, "spec": {"kind": "map"}, "kids": [],
+                    "value": None, "default": ["none"]}
+        self.set_hist = {}
         self.stats = {"set_ok": 0, "set_rej": 0, "add_ok": 0, "add_rej": 0, "rm_ok": 0, "depth": 1, "ties": 0}
         self._note_new()
 
@@ -225,6 +277,70 @@ class Exec:
             return P.InputParameterUnit(spec["key"], "n", mods()["qcls"][spec["qcls"]], d, prio, **kw)
         raise ValueError(k)
 
+    # ---- reference tree
+    def ref_node(self, path):
+        cur = self.ref
+        if path is None:
+            return cur
+        for seg in path.split("."):
+            nxt = None
+            if cur["spec"]["kind"] == "map":
+                for k in cur["kids"]:
+                    if k["key"] == seg:
+                        nxt = k
+                        break
+            if nxt is None:
+                return None
+            cur = nxt
+        return cur
+
+    def ref_update(self, op, out):
+        """apply a SUCCESSFUL operation to the reference tree"""
+        t = op[0]
+        if out[0] == "raise":
+            return
+        if t in ("addc", "addm"):
+            par = self.ref_node(op[1])
+            if par is None or par["spec"]["kind"] != "map":
+                return
+            sp = op[2]
+            dv = ["none"] if sp["kind"] == "map" else arg_canon(sp["default"])
+            node = {"key": sp["key"], "id": self.nops + 1, "prio": float(mk_value(sp["prio"])), "spec": sp, "kids": [],
+                    "value": None if sp["kind"] == "map" else dv, "default": dv}
+            i = 0
+            while i < len(par["kids"]) and par["kids"][i]["prio"] <= node["prio"]:
+                i += 1                                  # behind every child of priority <= its own
+            par["kids"].insert(i, node)
+        elif t == "remove":
+            segs = op[1].split(".")
+            par = self.ref_node(".".join(segs[:-1])) if len(segs) > 1 else self.ref
+            if par is not None:
+                par["kids"] = [k for k in par["kids"] if k["key"] != segs[-1]]
+        elif t in ("set", "mset"):
+            n = self.ref_node(op[1])
+            if n is not None:
+                n["value"] = arg_canon(op[2])
+
+    def ref_dump(self, node=None, prefix=""):
+        node = self.ref if node is None else node
+        ek = prefix + node["key"]
+        out = [[ek, node["id"], node["value"], node["default"]]]
+        for k in node["kids"]:
+            out += self.ref_dump(k, ek + ".")
+        return out
+
+    def ref_walk(self, node=None, obj=None):
+        """pairs (reference node, live object) along the live tree"""
+        P = mods()["P"]
+        node = self.ref if node is None else node
+        obj = self.root if obj is None else obj
+        yield node, obj
+        if isinstance(obj, P.InputParameterMap):
+            kids = {k["key"]: k for k in node["kids"]}
+            for key, c in list(obj.value.items()):
+                if key in kids:
+                    yield from self.ref_walk(kids[key], c)
+
     # ---- one operation
     def _do(self, op):
         t = op[0]
@@ -284,6 +400,7 @@ class Exec:
             out = ["param", self.ids.get(id(ret_obj), -1)]
         new_id = self.nops + 1 if t in ("addc", "addm") else None
         now = self.dump(new_id)
+        self.ref_update(op, out)
         if self.oracle_on and self.bad is None:
             b = self.check(op, out, exc_name, now, pre_target, pre_parent, pre_dup, ret_obj)
             if b:
@@ -292,6 +409,9 @@ class Exec:
         # statistics for the non-triviality rule
         if t in ("set", "mset") and pre_target is not None and not isinstance(pre_target, P.InputParameterMap):
             self.stats["set_ok" if out[0] == "none" else "set_rej"] += 1
+            hk = (f"{type(pre_target).__name__[14:]}{'(ro)' if pre_target.read_only else ''}<-{vtype(op[2])}:"
+                  f"{'accepted' if out[0] == 'none' else out[1]}")
+            self.set_hist[hk] = self.set_hist.get(hk, 0) + 1
         if t in ("addc", "addm"):
             self.stats["add_ok" if out[0] == "none" else "add_rej"] += 1
             if out[0] == "none" and isinstance(pre_parent, P.InputParameterMap):
@@ -317,6 +437,19 @@ class Exec:
                         f"constructing {op[2]['kind']} parameter {op[2]['key']!r} with parent raised {exc_name} "
                         "but the parameter is registered in the parent map afterwards")
             return (f"rejected-attempt-changed-state:{t}", f"{op[:2]} raised {exc_name} but the parameter tree changed")
+        for rn, p in self.ref_walk():
+            if rn["spec"]["kind"] != "map" and not isinstance(p, P.InputParameterMap):
+                if not spec_valid(rn["spec"], p.value):
+                    return (f"invalid-value-held:{type(p).__name__}",
+                            f"{p.extended_key()} holds {canon(p.value)} which does not satisfy the type/bounds/options it was declared with "
+                            f"({ {k: rn['spec'].get(k) for k in ('kind', 'mn', 'mx', 'opts', 'qcls') if k in rn['spec']} })")
+        rd = self.ref_dump()
+        if now != rd:
+            diff = next((i for i, (a, b) in enumerate(zip(now, rd)) if a != b), min(len(now), len(rd)))
+            return (f"tree-differs-from-reference:{t}",
+                    f"after {op[:2]} the parameter tree is not what the accepted operations so far imply: entry {diff} is "
+                    f"{now[diff] if diff < len(now) else None}, expected {rd[diff] if diff < len(rd) else None} "
+                    "(extended key, identity, value, default; pre-order)")
         for p, _d in self.walk():
             cls = type(p).__name__
             f = self.first.get(id(p))
@@ -765,9 +898,36 @@ def emit_cases(path: Path, cases):
 
 
 # ------------------------------------------------------------------ main
+RULE = ("random operation sequences (10-28 ops; every 5th from a malformed-heavy stream) on a DSOLModel's parameter tree, "
+        "all eight parameter classes, depth <= 3, values valid and invalid per class (wrong type, out of bounds, not an option, "
+        "wrong quantity class, bool for int, SI / Quantity for float, NaN, +-inf, -0.0, 10**400, read-only), paths existing and malformed; "
+        "non-trivial = distinct sequence with >= 1 accepted and >= 1 rejected set-value on an existing leaf, >= 3 successful adds "
+        "and a tree of depth >= 3")
+HOW = ("harness/c18.py run_ops(ops): each op is applied to a fresh DSOLModel's input_parameters "
+       "(set -> root.get(path).set_value(v); mset/mget -> model.set_parameter/get_parameter; "
+       "addc -> Class(..., parent=...); addm -> parent.add(Class(...)); get/remove -> root.get/remove(path)); "
+       "the identity of a parameter is the number of the op that created it (root = 0)")
+
+
 def nontrivial(ex) -> bool:
     s = ex.stats
     return s["set_ok"] >= 1 and s["set_rej"] >= 1 and s["add_ok"] >= 3 and s["depth"] >= 3
+
+
+def emit_locate(path: Path, cases):
+    em = Emitter()
+    items = []
+    for obs in cases:
+        row = [f"({em.op(op)}, {em.out(out)}, {em.dump(d)})" for op, out, d in obs]
+        items.append(C.clist(row))
+    lines = ["From Coq Require Import ZArith QArith List String.", "From PV Require Import Params.Model.",
+             "Import ListNotations.", "Open Scope string_scope.", "Open Scope nat_scope."]
+    lines += em.defs
+    lines.append("Definition cases : list (list obs) := [")
+    lines.append(";\n".join(items))
+    lines.append("].")
+    lines.append("Eval vm_compute in (first_bad_ops repaired cases).")
+    path.write_text("\n".join(lines) + "\n", encoding="utf-8")
 
 
 def main(tier: str) -> int:
@@ -775,8 +935,9 @@ def main(tier: str) -> int:
     proofs_ok = run.check_proofs(TARGETS, extra_tb=[
         "Python floats enter the model as the exact rationals they denote (float.as_integer_ratio) plus NaN, +-inf, -0.0; "
         "parameters.py only stores and compares values and Python compares int with float exactly",
-        "sorted() modelled as stable insertion sort (the unique stable sort for a strict weak order); display priorities are finite non-NaN numbers",
-        "Quantity values are (class, si, unit) triples of three classes (Length, Duration, Speed); unit lists of InputParameterUnit are read from the live classes",
+        "sorted() modelled as stable insertion sort (proved a stable sort); display priorities are finite non-NaN numbers",
+        "Quantity values are (class, si, unit) triples of three classes (Length, Duration, Speed), si computed by the live class; "
+        "unit lists of InputParameterUnit are read from the live classes",
         "constructor arguments of the wrong Python type for key/name/priority/read_only/format_str/options and object aliasing "
         "(the same parameter object in two maps, re-adding a removed object) are outside the model",
     ])
@@ -791,7 +952,7 @@ def main(tier: str) -> int:
     n_random = 1500 if tier == "quick" else 24000
     cases = []          # list of obs lists
     fails = {}          # signature -> (ops, what)
-    hist_ops, hist_exc = {}, {}
+    hist_ops, hist_exc, set_hist = {}, {}, {}
     cls_sets = {}
     nontriv = set()
     n_corpus = 0
@@ -801,11 +962,13 @@ def main(tier: str) -> int:
         todo = json.loads(corpus.read_text())
         n_corpus = len(todo)
 
-    def account(ex, obs):
+    def account(ex, obs, keep=True):
         for op, out, _d in obs:
             hist_ops[op[0]] = hist_ops.get(op[0], 0) + 1
             if out[0] == "raise":
                 hist_exc[out[1]] = hist_exc.get(out[1], 0) + 1
+        for k, v in ex.set_hist.items():
+            set_hist[k] = set_hist.get(k, 0) + v
         if nontrivial(ex):
             nontriv.add(json.dumps([o[0] for o in obs], sort_keys=True))
         for p, _ in ex.walk():
@@ -813,7 +976,8 @@ def main(tier: str) -> int:
             cls_sets[n] = cls_sets.get(n, 0) + 1
         if ex.bad and ex.bad[0] not in fails:
             fails[ex.bad[0]] = ([o[0] for o in obs][:ex.bad[2] + 1], ex.bad[1])
-        cases.append(obs)
+        if keep:
+            cases.append(obs)
 
     try:
         for ops in todo:
@@ -829,28 +993,6 @@ def main(tier: str) -> int:
                       {"trace": traceback.format_exc()[-1500:]}, found_input=False)
         return run.finish()
 
-    run.cov["evaluations"] = len(cases)
-    run.cov["operations"] = sum(len(c) for c in cases)
-    run.cov["distinct_nontrivial"] = len(nontriv)
-    run.cov["rule"] = ("random operation sequences (10-28 ops; every 5th from a malformed-heavy stream) on a DSOLModel's parameter tree, "
-                       "all eight parameter classes, depth <= 3, values valid and invalid per class (wrong type, out of bounds, not an option, "
-                       "wrong quantity class, bool for int, NaN, +-inf, -0.0, 10**400, read-only), paths existing and malformed; "
-                       "non-trivial = distinct sequence with >= 1 accepted and >= 1 rejected set-value on an existing leaf, >= 3 successful adds and a tree of depth >= 3")
-    run.cov["op_histogram"] = hist_ops
-    run.cov["exception_histogram"] = hist_exc
-    run.cov["parameters_in_final_trees_by_class"] = cls_sets
-    for obs in cases[n_corpus:n_corpus + 2]:
-        run.add_sample({"ops": [o[0] for o in obs][:8], "impl_outputs": [o[1] for o in obs][:8]})
-
-    for sig, (ops, what) in sorted(fails.items()):
-        small = shrink(ops, sig)
-        ex, obs = run_ops(small)
-        w = ex.bad[1] if ex.bad and ex.bad[0] == sig else what
-        run.violation(sig, w, {"ops": small, "impl_outputs": [o[1] for o in obs],
-                               "how": "harness/c18.py run_ops(ops): each op is applied to a fresh DSOLModel's input_parameters "
-                                      "(set -> root.get(path).set_value(v); mset/mget -> model.set_parameter/get_parameter; "
-                                      "addc -> Class(..., parent=...); addm -> parent.add(Class(...)))"})
-
     # ---- model vs implementation inside coqc
     d = C.scratch_dir(PID)
     shard = 100 if tier == "quick" else 400
@@ -861,23 +1003,72 @@ def main(tier: str) -> int:
         files.append(f)
     results = C.coqc_many(files)
     mism = []
+    evaluable = True
     for si, (rc, out) in enumerate(results):
         lst = C.parse_nat_list(out)
         if rc != 0 or lst is None:
             run.violation("correspondence-not-evaluable",
                           "coqc could not evaluate the C18 correspondence (Params.Model.case_ok): " + out[-600:],
                           {"file": str(files[si])}, found_input=False)
-            return run.finish()
+            evaluable = False
+            break
         mism += [si * shard + i for i in lst]
-    run.cov["traces_validated_against_impl"] = len(cases) - len(mism)
-    run.cov["model_impl_mismatches"] = len(mism)
+
+    # ---- the correspondence broke but the clause oracle saw nothing yet: search harder for a failing input
+    searched = 0
+    if (mism or not proofs_ok) and not fails and evaluable:
+        extra = 8000 if tier == "quick" else 40000
+        rng2 = random.Random(run.seed * 7919 + 1818)
+        for i in range(extra):
+            ex, obs = gen_and_run(rng2, rng2.randint(10, 30), malformed=(i % 3 == 2))
+            account(ex, obs, keep=False)
+            searched += 1
+            if fails:
+                break
+
+    run.cov["evaluations"] = len(cases) + searched
+    run.cov["operations"] = sum(hist_ops.values())
+    run.cov["distinct_nontrivial"] = len(nontriv)
+    run.cov["rule"] = RULE
+    run.cov["op_histogram"] = hist_ops
+    run.cov["exception_histogram"] = hist_exc
+    run.cov["set_attempts_by_class_valuetype_outcome"] = dict(sorted(set_hist.items()))
+    run.cov["parameters_in_final_trees_by_class"] = cls_sets
+    run.cov["extra_sequences_searched_with_oracle_only"] = searched
+    for obs in cases[n_corpus:n_corpus + 2]:
+        run.add_sample({"ops": [o[0] for o in obs][:8], "impl_outputs": [o[1] for o in obs][:8]})
+
+    for sig, (ops, what) in sorted(fails.items()):
+        small = shrink(ops, sig)
+        ex, obs = run_ops(small)
+        w = ex.bad[1] if ex.bad and ex.bad[0] == sig else what
+        run.violation(sig, w, {"ops": small, "impl_outputs": [o[1] for o in obs], "how": HOW})
+
+    if evaluable:
+        run.cov["traces_validated_against_impl"] = len(cases) - len(mism)
+        run.cov["model_impl_mismatches"] = len(mism)
     if mism and not fails:
-        obs = cases[mism[0]]
-        run.violation("model-impl-disagree",
-                      "correspondence Params.Model.case_ok (step repaired) no longer matches the implementation, "
-                      "but the clause oracle found no violated clause",
-                      {"ops": [o[0] for o in obs], "impl_outputs": [o[1] for o in obs], "impl_dumps": [o[2] for o in obs],
-                       "relation": "Params.Model.case_ok repaired"}, found_input=False)
+        # where do model and implementation part?  (position of the first disagreeing op of up to 20 cases)
+        sub = mism[:20]
+        f = d / "locate_c18.v"
+        emit_locate(f, [cases[i] for i in sub])
+        rc, out = C.coqc_file(f)
+        pos = C.parse_nat_list(out) or []
+        kinds = {}
+        for ci, at in zip(sub, pos):
+            if at < len(cases[ci]):
+                k = cases[ci][at][0][0]
+                kinds[k] = kinds.get(k, 0) + 1
+        ci, at = sub[0], (pos[0] if pos else 0)
+        obs = cases[ci]
+        opk = obs[at][0][0] if at < len(obs) else "?"
+        run.violation(f"model-impl-disagree:{opk}",
+                      "correspondence Params.Model.case_ok (step repaired) no longer matches the implementation "
+                      f"({len(mism)} of {len(cases)} sequences; first disagreeing op kinds {kinds}), "
+                      f"but the clause oracle found no violated clause in {len(cases) + searched} sequences",
+                      {"ops": [o[0] for o in obs][:at + 1], "impl_outputs": [o[1] for o in obs][:at + 1],
+                       "first_disagreeing_op": at, "impl_dump_after_it": next((o[2] for o in reversed(obs[:at + 1]) if o[2] is not None), None),
+                       "relation": "Params.Model.case_ok repaired", "how": HOW}, found_input=False)
     if not proofs_ok and not run.violations:
         run.violation("proof-broken", "a C18 proof obligation no longer checks: " + getattr(run, "proof_log", "")[-800:],
                       {"theorems": run.cov.get("theorems")}, found_input=False)
